@@ -250,7 +250,7 @@ def _propagation_table(cfg, props, meth, param):
     P, Q = S(None, "P"), S(None, "Q")
     table = {}
     for self_parent in (None, P):
-        for other in (None, S(P, "child of P"), S(Q, "child of Q"), S(None, "root")):
+        for other in (None, S(P, "child of P"), S(Q, "child of Q"), S(None, "root"), P):  # P itself: a transition between a composite and its own child
             env = {"self": S(self_parent, "self"), param: other}
             label = f"parent={'P' if self_parent else None}, other={other.label if other else None}"
             try:
